@@ -15,7 +15,7 @@ func init() {
 		Explanation: "Commit gating of the WAL page map (edge-cut: page-map updates only under commit != 0, no read after a bad frame, byte budget only at commit frames, trim above commit, maxOffset from committed frames only), " +
 			"TXID allocation and header provenance in (*DB).sync (MinTXID = MaxTXID = exec.pos.TXID+1, same value in the file name, Commit/WALOffset/WALSize/salts from the verified cursor and the page map), " +
 			"position/ack fields set only after the rename and directory sync succeeded, bounded snapshot read (budget = walEndOffset - header, success cut by maxOffset <= walEndOffset, header MinTXID=1/MaxTXID=captured position, DB.Snapshot writes (9, 1, pos.TXID)), " +
-			"and the executor/checkpoint lock hand-off (lockset dataflow: chkMu.RLock taken with execSem held; execCheckpoint only under execSem+chkMu(W); sync/verifyAndSync only under execSem).",
+			"and the executor/checkpoint lock hand-off (lockset dataflow: chkMu.RLock taken with execSem held; execCheckpoint only under execSem+chkMu(W); sync/verifyAndSync only under execSem). Shared with C04: default-deny continuity decision, helper verdicts, restart-from-header on a restarted WAL, baseline after a wipe and the behind-replica fetch (TXIDs are never re-minted, no WAL generation is skipped).",
 		NotDecided:  "that each TXID's content equals an application commit (needs SQLite's WAL semantics and the continuity decision of C04); compaction preserving states (ltx library)",
 		Assumptions: []string{"Go sync.RWMutex / semaphore.Weighted semantics"},
 	})
@@ -29,6 +29,12 @@ func runC02(c *Ctx) {
 	c02Locks(c)
 	// no commit is checkpointed away between the sealed copy and the WAL restart
 	checkpointProtocolRules(c)
+	// TXIDs are never re-minted and no WAL generation is skipped: the continuity
+	// decision's necessary conditions and the baseline rules (shared with C04)
+	c04DefaultDeny(c)
+	c04Helpers(c)
+	c04Wipe(c)
+	c04Behind(c)
 }
 
 func c02Snapshot(c *Ctx) {
